@@ -403,4 +403,11 @@ def _target(ctx, R):
 
 _target.rule_id = "C02.TARGET"
 
-RULES = [sort_rule, chain_rule, gap_rule, opts_rule, stubpred, solve_rule, writeback, lastwriter, alllayers, _target, state_rule] + vpsc_pack.FEAS
+def _reset(ctx, R):
+    from .c04 import reset
+    return reset(ctx, R)
+
+
+_reset.rule_id = "C06.RESET"
+
+RULES = [sort_rule, chain_rule, gap_rule, opts_rule, stubpred, solve_rule, writeback, lastwriter, alllayers, _target, _reset, state_rule] + vpsc_pack.FEAS
